@@ -282,6 +282,8 @@ def _summarise_core(ip, st, fr, H, N, var, affine, region, cont, runner, is_iter
         except Undecided:
             continue
         pre[loc] = pv
+        if pv[0] == "iter":
+            raise Undecided("iterator %r is stepped inside a loop body" % (loc,))
         if pv[0] == "bytes":
             nm = T.fresh("$ph")
             T.declare_var(nm, T.blen(pv[1]))
@@ -334,6 +336,14 @@ def _summarise_core(ip, st, fr, H, N, var, affine, region, cont, runner, is_iter
                     mregion[loc] = (br[1], br[2])
                     continue
                 raise Undecided("several regions of %r written per iteration" % (loc,))
+    def descending(loc):
+        """the element written moves down by one element length per iteration (a reversed index)."""
+        lo, ln = mregion[loc]
+        base0 = T.lsub(lo, {var: ZERO})
+        d = (lo - base0) + v * ln
+        if Fi.prove_eq(ln):
+            return False
+        return d == ZERO or Fi.prove_eq(d)
     # reads of mapped locations must not look at earlier iterations' output
     for s in outs:
         for cell, path in s.rlog:
@@ -343,7 +353,11 @@ def _summarise_core(ip, st, fr, H, N, var, affine, region, cont, runner, is_iter
                 if br is None:
                     raise Undecided("whole read of element-wise written %r inside loop" % (loc,))
                 lo, ln = mregion[loc]
-                if not Fi.le(lo, br[1]):
+                if descending(loc):
+                    # earlier iterations wrote above this element
+                    if not Fi.le(br[1] + br[2], lo + ln):
+                        raise Undecided("loop iteration reads %r at %r, possibly written by an earlier iteration" % (loc, br[1]))
+                elif not Fi.le(lo, br[1]):
                     raise Undecided("loop iteration reads %r at %r, possibly written by an earlier iteration" % (loc, br[1]))
     # 4. end-of-iteration values
     g = {}
@@ -497,11 +511,15 @@ def _summarise_core(ip, st, fr, H, N, var, affine, region, cont, runner, is_iter
             raise Undecided("element template is %s" % tv[0])
         if any(nm in value_names(tv) for nm in names):
             raise Undecided("element template still mentions carried state")
-        base = T.lsub(lo, {var: ZERO})
-        if not st.F.prove_eq((lo - base) - v * ln) and not Fi.prove_eq((lo - base) - v * ln):
-            raise Undecided("element stride %r differs from element length %r" % (lo - base, ln))
         if var in ln.symbols():
             raise Undecided("element length depends on the index")
+        base = T.lsub(lo, {var: ZERO})
+        if descending(loc):
+            # re-index from the other end: element u = N-1-v sits at lo(N-1) + u*ln
+            base = T.lsub(lo, {var: N - 1})
+            tv = vsub(tv, {}, {var: N - 1 - v}, Fi)
+        elif not st.F.prove_eq((lo - base) - v * ln) and not Fi.prove_eq((lo - base) - v * ln):
+            raise Undecided("element stride %r differs from element length %r" % (lo - base, ln))
         m = T.bnorm((("m", var, ZERO, N, ln, tv[1]),), st.F)
         ip.store(sp, Target(loc[0], loc[1] + (("br", base, N * ln),)), vbytes(m))
     for loc, a in affine.items():
